@@ -147,7 +147,14 @@ func buildWorld(sc *Scenario) (*world, error) {
 		w.anc = append(w.anc, anc)
 		w.astSize = append(w.astSize, n)
 		w.wild = append(w.wild, usesWildcard(anc))
-		w.pathSnap = append(w.pathSnap, pathSnapshot(p))
+		// The snapshot is taken from a second parse of the same text, so
+		// that the shared Path is never used before the concurrent phase
+		// (a lazily filled cache in the AST must meet its first use there).
+		twin, err := path.Parse(txt)
+		if err != nil {
+			return nil, harnessf("path %q parsed once but not twice: %v", txt, err)
+		}
+		w.pathSnap = append(w.pathSnap, pathSnapshot(twin))
 	}
 	for i, d := range sc.Docs {
 		v, err := decodeJSON(d)
@@ -166,6 +173,9 @@ func buildWorld(sc *Scenario) (*world, error) {
 		if !ok {
 			return nil, harnessf("vars %d: not an object", i)
 		}
+		if d.Native {
+			nativeVars(m)
+		}
 		w.vars = append(w.vars, exec.Vars(m))
 		w.varSnap = append(w.varSnap, renderValue(m, false))
 	}
@@ -179,10 +189,13 @@ func buildWorld(sc *Scenario) (*world, error) {
 				}
 				w.zones[o.Zone] = loc
 			}
-			if o.Kind != "parse" && w.paths[o.Path] == nil {
+			if o.Kind != "parse" && o.Kind != "scan" && o.Kind != "unmarshal" && w.paths[o.Path] == nil {
 				return nil, harnessf("task %d op %d: path %q does not parse", ti, oi, sc.Paths[o.Path])
 			}
-			if o.IsExec() && w.wild[o.Path] {
+			if o.IsExec() && w.wild[o.Path] && textualWild(sc.Paths[o.Path]) {
+				// (A parsed tree with a wildcard for a text without one
+				// means Parse returned somebody else's Path: that is for
+				// the oracles to report, not a generator slip.)
 				// DESIGN 3.6: object member order is kept out of the
 				// workload; a generator or minimiser slip must not
 				// surface as a false violation.
@@ -310,6 +323,23 @@ func (w *world) execOp(op OpSpec, tk *task, fresh bool) *Outcome {
 		}
 		out.Raw = "parsed:" + p.String()
 		out.Ranked = out.Raw
+		return out
+	case "scan", "unmarshal":
+		// Scan/unmarshal into the caller's OWN, freshly parsed Path: legal
+		// use that must not affect anybody else's Path.
+		p, err := path.Parse(txt)
+		if err != nil {
+			out.setErr(err)
+			return out
+		}
+		if op.Kind == "scan" {
+			err = p.Scan(w.sc.Paths[op.Path2])
+		} else {
+			err = p.UnmarshalText([]byte(w.sc.Paths[op.Path2]))
+		}
+		out.Raw = "scanned:" + p.String()
+		out.Ranked = out.Raw
+		out.setErr(err)
 		return out
 	case "string":
 		out.Raw = "string:" + w.pickPath(op, fresh).String()
@@ -714,4 +744,56 @@ func addrDependent(pathText string) bool {
 		return false
 	}
 	return strings.Contains(pathText, "id") || strings.Contains(pathText, "*")
+}
+
+// nativeVars rewrites the top-level values of a decoded variables map into
+// the Go types a caller building the map by hand would use.
+func nativeVars(m map[string]any) {
+	for k, v := range m {
+		switch v := v.(type) {
+		case float64:
+			if v == float64(int(v)) {
+				m[k] = int(v)
+			}
+		case []any:
+			if len(v) == 0 {
+				continue
+			}
+			strs, ints := make([]string, 0, len(v)), make([]int, 0, len(v))
+			for _, e := range v {
+				switch e := e.(type) {
+				case string:
+					strs = append(strs, e)
+				case float64:
+					if e == float64(int(e)) {
+						ints = append(ints, int(e))
+					}
+				}
+			}
+			if len(strs) == len(v) {
+				m[k] = strs
+			} else if len(ints) == len(v) {
+				m[k] = ints
+			}
+		}
+	}
+}
+
+// textualWild reports whether the path text spells a member wildcard.
+func textualWild(text string) bool {
+	// Drop string literals (regex patterns may contain ".*").
+	var sb strings.Builder
+	in := false
+	for i := 0; i < len(text); i++ {
+		c := text[i]
+		switch {
+		case in && c == '\\' && i+1 < len(text):
+			i++
+		case c == '"':
+			in = !in
+		case !in:
+			sb.WriteByte(c)
+		}
+	}
+	return strings.Contains(sb.String(), ".*")
 }
